@@ -193,10 +193,6 @@ def canon (c : Config) (n : Nat) (r : Result) : String :=
   " p=" ++ joinOr ";" (r.policies.map (showPolicy n)) ++
   " s=" ++ joinOr ";" (r.servers.map (showServer c n))
 
-def lookupSrv (k : Nat) : List (Nat × SrvOut) → Option SrvOut
-  | [] => none
-  | kv :: rest => if kv.1 = k then some kv.2 else lookupSrv k rest
-
 def showFlagsOnly (c : Config) (r : Result) (i : Nat) : String :=
   "s" ++ toString i ++ "/" ++
   (match lookupSrv i r.servers with
